@@ -15,6 +15,7 @@ import (
 	"net/http"
 	"net/url"
 	"os"
+	"strconv"
 	"strings"
 	"sync"
 	"time"
@@ -178,6 +179,16 @@ func main() {
 		enc.Encode(v)
 		n++
 		mu.Unlock()
+	}
+	if *proto == "card" {
+		cm2 := map[string]string{}
+		for k, v := range cm {
+			cm2[k] = v
+		}
+		for k, v := range bigLimits {
+			cm2[strconv.Itoa(k)] = strconv.Itoa(v)
+		}
+		cm = cm2
 	}
 	c := xmlt.NewConc(cm)
 	if *proto == "card" {
